@@ -94,7 +94,7 @@ def envelope_spec(draw, tier):
             attrs.insert(draw(st.integers(0, len(attrs))), [be.T_BYTES, 0, "fill", bytes((i * 11) & 0xFF for i in range(room)).hex()])
     mode = draw(st.sampled_from(["api", "api", "api", "cli", "keystore"]))
     spec = {
-        "mode": mode, "payload_len": plen, "payload_key": draw(st.integers(1, 1 << 30)), "padding": draw(st.one_of(st.sampled_from([0, 4095, 1]), st.integers(0, 4095))),
+        "mode": mode, "payload_len": plen, "payload_key": draw(st.integers(1, 1 << 30)), "padding": draw(st.one_of(st.sampled_from([0, 4095, 1]), st.integers(0, 4095), st.sampled_from([65535, 65536, 65537, 70000, (1 << 20) + 5]))),
         "key": draw(st.binary(min_size=32, max_size=32)).hex(), "iv": draw(st.binary(min_size=12, max_size=12)).hex(),
         "attrs": [list(a) for a in attrs], "aad": draw(st.one_of(st.none(), st.binary(min_size=1, max_size=24).map(bytes.hex))),
         "xor": draw(st.sampled_from([1, 0x80, 0xFF, 0x20])), "ct_positions": draw(st.lists(st.integers(0, 1 << 20), min_size=4, max_size=8)),
